@@ -85,28 +85,48 @@ def run_cases(plain, cases_, workdir, tag):
     return res
 
 
-def verdict_expr(c, r, ir, real):
+KF_PREDS = (
+    'existsb is_keyword (out_idents o)',
+    'negb (str_nodup (type_names o)) || negb (str_nodup (value_names o)) || negb (str_nodup (flat_map (fun c => [cp_wg_const c; cp_fn c]) (o_compute o)))',
+    'negb (forallb (fun v => existsb (String.eqb (vs_name v)) (map s_name (o_structs o))) (o_vstructs o))',
+    'negb (forallb (fun v => str_nodup (ve_params v ++ (if ve_ov_param v then ["overrides"%string] else []))) (o_ventries o))',
+    'negb (forallb struct_bounds_ok (o_structs o))',
+    'existsb (fun n => existsb (String.eqb n) prelude_names) (map s_name (o_structs o))',
+)
+
+
+def _compiles(c, r):
     comp = r.get("compile")
     b = (comp == "ok") or (comp == "errors" and permitted(r.get("diagnostics")))
     if r.get("result") != "ok":
         b = True        # the property quantifies over accepted shaders
+    return b
+
+
+def _model(c, r, ir):
     o = coq_options(c["opts"])
     inc = "None" if c.get("include") is None else '(Some "%s"%%string)' % c["include"]
     src = '"' + c["wgsl"].replace('"', '""') + '"%string'
     gatef = "gate %s %s" % ("true" if c["opts"].get("validate") else "false", "false" if r.get("valid") is False else "true")
-    return ('[wf %s; agree_res out_eqb (GATE (gen %s %s %s %s)) %s; %s; '
-            'on_out %s (fun o => existsb is_keyword (out_idents o)); '
-            'on_out %s (fun o => negb (str_nodup (type_names o)) || negb (str_nodup (value_names o)) || negb (str_nodup (flat_map (fun c => [cp_wg_const c; cp_fn c]) (o_compute o)))); '
-            'on_out %s (fun o => negb (forallb (fun v => existsb (String.eqb (vs_name v)) (map s_name (o_structs o))) (o_vstructs o))); '
-            'on_out %s (fun o => negb (forallb (fun v => str_nodup (ve_params v ++ (if ve_ov_param v then ["overrides"%%string] else []))) (o_ventries o))); '
-            'on_out %s (fun o => negb (forallb struct_bounds_ok (o_structs o))); '
-            'on_out %s (fun o => existsb (fun n => existsb (String.eqb n) prelude_names) (map s_name (o_structs o)))]'
-            % (ir, ir, src, inc, o, real, "true" if b else "false", real, real, real, real, real, real)).replace("GATE", gatef)
+    return "(%s (gen %s %s %s %s))" % (gatef, ir, src, inc, o)
+
+
+def verdict_expr(c, r, ir, real):
+    kfs = "; ".join("on_out %s (fun o => %s)" % (real, p) for p in KF_PREDS)
+    return "[wf %s; agree_res out_eqb %s %s; %s; %s]" % (ir, _model(c, r, ir), real, "true" if _compiles(c, r) else "false", kfs)
 
 
 def verdict_expr_noout(c, r, ir):
-    # the returned text does not parse as Rust at all: it certainly does not compile
-    return '[wf %s; true; false; ir_has_keyword %s]' % (ir, ir)
+    """The returned text was not recognised by the extractor. Either it is not Rust at all (a keyword used as an
+    identifier: the model predicts that, clause (a) holds, and it certainly does not compile) or a template changed
+    (correspondence broken: (a) false); in both cases rustc decides (b), and the known-finding classes are decided on
+    the MODEL's output, which still describes what this generator means to emit."""
+    not_rust = "syn::parse_file failed" in str(r.get("extract_err"))
+    a = ("ir_has_keyword %s" % ir) if not_rust else "false"
+    mo = _model(c, r, ir)
+    kfs = ["on_out %s (fun o => %s)" % (mo, p) for p in KF_PREDS]
+    kfs[0] = "(%s || ir_has_keyword %s)" % (kfs[0], ir)
+    return "[wf %s; %s; %s; %s]" % (ir, a, "true" if _compiles(c, r) else "false", "; ".join(kfs))
 
 
 def nontrivial(c, r):
